@@ -2293,8 +2293,11 @@ As a workaround use x.as_expr() %s y.as_expr()""" % op)
             def psinc(M, arg):
                 """Periodic sinc."""
 
+                if arg == np.round(arg):
+                    # sin(pi * arg) is only a rounding residue; use the limit
+                    return (-1.0)**(arg * (M - 1))
                 D = np.sin(np.pi * arg)
-                return 1.0 if D == 0 else np.sin(M * np.pi * arg) / (M * D)
+                return np.sin(M * np.pi * arg) / (M * D)
 
             def trap(arg, alpha):
 
